@@ -276,6 +276,10 @@ pub mod std {
         }
     }
 
+    pub mod hint {
+        pub fn spin_loop() {}
+    }
+
     pub mod time {
         use super::super::*;
         pub use core::time::Duration;
